@@ -242,11 +242,12 @@ pub fn class_stmt(g: &mut Gen, out: &mut Vec<Stmt>) {
         g.label_pub("non_class_superclass");
         let bad = g.fresh_pub("Bad");
         let e = g.fresh_pub("e");
-        out.push(Stmt::var("notclass", Some(Expr::Num(3.0))));
+        let notclass = g.fresh_pub("notclass");
+        out.push(Stmt::var(&notclass, Some(Expr::Num(3.0))));
         out.push(Stmt::new(StmtKind::Try(
             vec![Stmt::new(StmtKind::Class(Rc::new(ClassDef {
                 name: bad.clone(),
-                superclass: Some("notclass".into()),
+                superclass: Some(notclass.clone()),
                 default_ctor: Some("new".into()),
                 methods: vec![],
                 attr_line: Cell::new(0),
@@ -888,7 +889,9 @@ pub fn fiber_stmts(g: &mut Gen, out: &mut Vec<Stmt>) {
             g.push_scope();
             let filler = g.stmts(1);
             g.pop_scope();
-            body.extend(filler);
+            // a block of its own: the statement was generated in an inner scope, and a variable it
+            // declares may carry the name of a parameter of the fiber's function
+            body.push(Stmt::new(StmtKind::Block(filler)));
         }
     }
     if g.rd.chance(2, 3) {
